@@ -395,6 +395,14 @@ def oracle(scn: dict, o: dict) -> list[tuple[str, str]]:
     if o.get('hang'):
         where = 'run_in_process() never returned a handle' if 'pid' not in o else 'awaiting the handle never completed'
         stage = o.get('hang_stage', 'other')
+        sg = scn.get('signal') or {}
+        if stage == 'future-never-completes' and scn['spec'].get('outcome') == 'block' and sg.get('how') == 'interrupt' \
+                and sg.get('when') == 'boot' and o.get('child_alive_at_hang'):
+            # not a failure of the code under test: the worker function of this scenario blocks FOR EVER unless a signal ends
+            # it; a SIGINT that lands while the child interpreter is still starting up can be absorbed there (the
+            # KeyboardInterrupt is raised inside start-up code), after which the function starts and blocks as designed.
+            # The property promises that the request can be issued, not that SIGINT ends a process that ignores it.
+            return []
         detail = {'executor-shutdown-blocks-loop': 'the event loop is blocked inside ProcessPoolExecutor.__exit__ (shutdown(wait=True)) while the '
                                                    'worker, still alive, cannot flush its log records because the listener needs the loop',
                   'log-listener-never-ends': 'the worker died while writing a log record; the parent\'s feeder thread waits for the queue\'s write lock '
